@@ -225,3 +225,11 @@ Fixpoint spec_run {T} eqb (s : sorted T) (bag : list T) (ops : list (op T)) : op
    then subjected to any sequence of operations *)
 Definition reachable {T} zero eqb sort_Stable (less : T -> T -> bool) (s : sorted T) : Prop :=
   exists init ops s0, NewSorted zero sort_Stable init less = Ok s0 /\ s = fst (run eqb s0 ops).
+
+(* r is the first position of v in l *)
+Definition first_position {T} (l : list T) (v : T) (r : nat) : Prop :=
+  nth_error l r = Some v /\ forall k, k < r -> nth_error l k <> Some v.
+
+(* the index argument of Get / RemoveAt is a position of the object *)
+Definition op_in_range {T} (s : sorted T) (o : op T) : Prop :=
+  match o with OGet i | ORemoveAt i => (0 <= i < Len s)%Z | _ => True end.
